@@ -8,7 +8,7 @@ use duckscript::types::runtime::Context;
 use serde_json::{json, Value};
 use std::sync::{Arc, Mutex};
 
-const VALS: [&str; 19] = ["", " ", "   ", "a", "a b", " a ", "x=y", "\\", "a\\b", "é", "0", "false", "-r", "two  spaces", "\t", "a\t", "\ta", "a\tb", "\u{a0}"];
+const VALS: [&str; 24] = ["", " ", "   ", "a", "a b", " a ", "x=y", "\\", "a\\b", "é", "0", "false", "-r", "two  spaces", "\t", "a\t", "\ta", "a\tb", "\u{a0}", "=a", "=", "a=", ":a", "!a"];
 
 pub fn gen(r: &mut Rng) -> Value {
     if r.chance(1, 5) {
@@ -44,6 +44,7 @@ pub fn class_of(input: &Value) -> &'static str {
     else if args.iter().any(|a| a.contains('\n') || a.contains('\r')) { "argument-containing-line-break" }
     else if args.iter().any(|a| a.contains('#')) { "argument-containing-hash" }
     else if args.iter().any(|a| a.contains('"')) { "argument-containing-double-quote" }
+    else if args.first().map(|a| a.starts_with('=')).unwrap_or(false) { "first-argument-starting-with-equals-sign" }
     else { "other" }
 }
 
